@@ -421,6 +421,157 @@ def _deb_explore(case, chooser):
     return s
 
 
+# ====================================================================== part 2: AutoRestartTrick
+KILL_AFTER = 1          # seconds (4 units): keeps the signal/poll/kill loop short on the virtual clock
+
+
+def rs_program(rng):
+    """A case: trick options, child behaviours, the observer thread's script and the main thread's script."""
+    interval = rng.choice([0, 0, 0, 2])
+    restart_on_exit = rng.random() < 0.7
+    n_ops = rng.randint(1, 4)
+    ev_ops, main_ops = [], [["start"]]
+    for _ in range(n_ops):
+        r = rng.random()
+        if r < 0.55:
+            ev_ops.append(["ev"])
+            if rng.random() < 0.5:
+                ev_ops.append(["sleep", rng.choice([0, 1, 2, 3])])
+        elif r < 0.8:
+            main_ops.append(["sleep", rng.choice([0, 1, 2, 4])])
+        else:
+            main_ops.append(["stop"])
+    if rng.random() < 0.5 and ["stop"] not in main_ops:
+        main_ops.append(["sleep", rng.choice([1, 2, 5])])
+        main_ops.append(["stop"])
+    children = []
+    for _ in range(6):
+        children.append({"self_exit": rng.choice([None, None, 1, 2, 3]) if restart_on_exit or rng.random() < 0.3 else None,
+                         "on_signal": rng.choice(["now", "now", 1, 2, "never"])})
+    return {"kind": "restart", "interval": interval, "restart_on_exit": restart_on_exit, "children": children,
+            "ev": ev_ops, "main": main_ops}
+
+
+def rs_run(case, chooser, yield_attrs=True):
+    from harness import detsched as ds
+    from harness import procsim
+    from watchdog.events import FileModifiedEvent
+    import watchdog.tricks as tricks
+
+    s = new_sched(chooser, max_steps=6000)
+    script = [{"self_exit": None if c["self_exit"] is None else c["self_exit"] * UNIT,
+               "on_signal": c["on_signal"] if isinstance(c["on_signal"], str) else c["on_signal"] * UNIT}
+              for c in case["children"]]
+    table = procsim.ProcTable(s, script)
+    undo = procsim.install(table)
+    saved_attrs = {}
+    if yield_attrs:
+        # unlocked shared accesses become yield points (private names only PLACE yield points)
+        for name, default in (("process", None), ("process_watcher", None), ("_is_process_stopping", False),
+                              ("_is_trick_stopping", False)):
+            saved_attrs[name] = tricks.AutoRestartTrick.__dict__.get(name)
+            setattr(tricks.AutoRestartTrick, name, ds.YieldAttr(name, default))
+    state = {"started": False}
+    try:
+        trick = tricks.AutoRestartTrick(["cmd"], debounce_interval_seconds=case["interval"] * UNIT,
+                                        restart_on_command_exit=case["restart_on_exit"], kill_after=KILL_AFTER)
+
+        def libs_alive():
+            return [t.name for t in s.threads if t.role == "lib" and not t.done]
+
+        def main():
+            for op in case["main"]:
+                if op[0] == "start":
+                    trick.start()
+                    state["started"] = True
+                    s.log("started", s.clock, len(s.trace))
+                elif op[0] == "sleep":
+                    ds._sleep(op[1] * UNIT)
+                elif op[0] == "stop":
+                    s.log("stop-call", s.clock, len(s.trace))
+                    trick.stop()
+                    s.log("stop-ret", table.alive(), libs_alive(), s.clock, len(s.trace))
+            ds._sleep(12 * UNIT)
+            s.log("end", table.alive(), libs_alive(), s.clock, len(s.trace))
+
+        def observer():
+            s.yield_point("await-start", lambda: state["started"])
+            n = 0
+            for op in case["ev"]:
+                if op[0] == "ev":
+                    n += 1
+                    s.log("ev-call", n, s.clock, len(s.trace))
+                    trick.on_any_event(FileModifiedEvent("x"))
+                    s.log("ev-ret", n, s.clock, len(s.trace))
+                elif op[0] == "sleep":
+                    ds._sleep(op[1] * UNIT)
+            ds._sleep(12 * UNIT)
+
+        s.spawn("main", main)
+        s.spawn("obs", observer)
+        s.run()
+    finally:
+        undo()
+        for name, old in saved_attrs.items():
+            if old is None:
+                delattr(tricks.AutoRestartTrick, name)
+            else:
+                setattr(tricks.AutoRestartTrick, name, old)
+    return s, table
+
+
+def rs_oracle(case, s, table):
+    """The property text on the process-table log and the call history."""
+    bad = []
+    ev = {e[1]: e for e in s.events}
+    stop_call = next((e for e in s.events if e[1] == "stop-call"), None)
+    stop_ret = next((e for e in s.events if e[1] == "stop-ret"), None)
+    spawns = [e for e in table.log if e[0] == "Spawn"]
+    # never more than one child alive
+    for kind, pid, t, step, alive in spawns:
+        if len(alive) > 1:
+            bad.append(("two children alive at a time", {"spawned": pid, "alive": alive, "at": units(t),
+                                                          "process_log": [list(map(str, x)) for x in table.log]},
+                        "at most one child alive"))
+            break
+    if s.deadlock is not None:
+        bad.append(("deadlock", [list(x) for x in s.deadlock.blocked], "no deadlock"))
+    elif s.livelock:
+        bad.append(("step limit reached", None, "termination"))
+    if stop_ret is not None:
+        _, _, alive, libs, t, step = stop_ret
+        if alive:
+            bad.append(("a child is alive when stop() returns", {"alive": alive, "at": units(t)}, "no child alive after stop()"))
+        late = [e[1] for e in spawns if e[3] >= step]
+        if late:
+            bad.append(("a child is started after stop() returned", late, "no Spawn after stop()"))
+        if libs:
+            bad.append(("a helper thread is alive when stop() returns", libs, "all helper threads gone"))
+    # restart accounting
+    if s.deadlock is None and not s.livelock:
+        n_spawn = len(spawns)
+        lim = stop_call[-1] if stop_call else 10 ** 9
+        if case["interval"] == 0:
+            trig_done = len([e for e in s.events if e[1] == "ev-ret" and e[-1] <= lim])
+            trig_all = len([e for e in s.events if e[1] == "ev-call"])
+        else:
+            trig_done = trig_all = None
+        self_exits = len([p for p in table.procs if p.exit_cause == "self" and p.dead(s.clock)]) if case["restart_on_exit"] else 0
+        if trig_all is not None and any(e[1] == "started" for e in s.events):
+            if not (1 + trig_done <= n_spawn <= 1 + trig_all + self_exits):
+                bad.append(("number of child starts does not match 1 + triggering events (+ self-exits)",
+                            {"spawns": n_spawn, "events_before_stop": trig_done, "events": trig_all, "self_exits": self_exits},
+                            "1 + events returned before stop() <= spawns <= 1 + events + self-exits"))
+        end = ev.get("end")
+        if end is not None and stop_call is None and case["restart_on_exit"] and any(e[1] == "started" for e in s.events):
+            if len(end[2]) != 1:
+                bad.append(("no child is running although the trick was not stopped (restart on exit enabled)",
+                            {"alive": end[2]}, "exactly one child alive"))
+    for n, e in s.uncaught():
+        bad.append(("uncaught exception in thread " + n, repr(e), "none"))
+    return bad
+
+
 # ====================================================================== driver entry points
 def run(ctx) -> Result:
     from harness import detsched as ds
